@@ -355,6 +355,7 @@ func genSOp(t *rapid.T, kinds []string, maxLen int) SOp {
 			op.L = maxLen
 		}
 		op.F = rapid.IntRange(0, 4).Draw(t, "f")
+		op.X = rapid.IntRange(0, 8).Draw(t, "prefix")
 	case "pp":
 		op.I = rapid.IntRange(0, 2).Draw(t, "rounds")
 		op.L = rapid.IntRange(0, 199).Draw(t, "l")
